@@ -96,7 +96,7 @@ OptToks(o) ==
   (CASE o.type = "sec"  -> InstToks(o, 1)
      [] o.type = "func" -> <<>>
      [] OTHER -> IF IsList(o) THEN <<TkStr(o.name), TkP("="), TkP("{")>> \o ListToks(o, 1) \o <<TkP("}")>>
-                 ELSE IF Unset(o) THEN <<Tk("cmt", "", 0)>>     \* commented out
+                 ELSE IF Unset(o) THEN <<Tk("cmt", o.name \o "=" \o ValText(o, 1), 0)>>   \* commented out
                  ELSE <<TkStr(o.name), TkP("="), TkStr(TokText(o, 1))>>)
 InstToks(o, j) ==
   IF j > Len(o.vals) THEN <<>>
@@ -114,5 +114,17 @@ RtOpt(o) == [n |-> o.name,
                    ELSE [i \in 1..Len(o.vals) |-> IF o.type = "float" THEN F6(o.vals[i]) ELSE o.vals[i]],
              c |-> o.cmt]
 RtSec(s) == [t |-> s.title, o |-> [i \in 1..Len(s.opts) |-> RtOpt(s.opts[i])]]
+
+(* the same without annotations: a scalar written commented out ("# name=value") is read back *)
+(* as a comment, which annotation support then attaches to the option that follows it          *)
+RECURSIVE RtSecV(_), AnyUnset(_)
+RtOptV(o) == [n |-> o.name,
+              v |-> IF o.type = "sec" THEN [i \in 1..Len(o.vals) |-> RtSecV(o.vals[i])]
+                    ELSE [i \in 1..Len(o.vals) |-> IF o.type = "float" THEN F6(o.vals[i]) ELSE o.vals[i]]]
+RtSecV(s) == [t |-> s.title, o |-> [i \in 1..Len(s.opts) |-> RtOptV(s.opts[i])]]
+AnyUnset(s) == \E i \in 1..Len(s.opts) :
+                 LET o == s.opts[i]
+                 IN IF o.type = "sec" THEN \E j \in 1..Len(o.vals) : AnyUnset(o.vals[j])
+                    ELSE o.type # "func" /\ ~IsList(o) /\ Unset(o)
 
 =============================================================================
